@@ -324,7 +324,14 @@ def gen_request(rng, src, main_rel):
     kind = 'extract_variable' if r < 0.78 else 'extract_function'
     if not exprs:
         return {'kind': kind, 'line': 1, 'column': 0, 'new_name': 'ex', 'until_line': None, 'until_column': None}
-    (l1, c1), (l2, c2), _ = rng.choice(exprs)
+    # expressions that are the first token of a continuation line carry a multi-line prefix
+    # (line break, comment lines): prefer them a third of the time
+    src_lines = src.splitlines()
+    cont = [e for e in exprs if e[0][0] <= len(src_lines)
+            and src_lines[e[0][0] - 1][:e[0][1]].strip() == '' and e[0][1] > 0
+            and e[2] not in ('expr_stmt', 'simple_stmt', 'return_stmt', 'if_stmt', 'for_stmt', 'funcdef')]
+    pool = cont if cont and rng.random() < 0.35 else exprs
+    (l1, c1), (l2, c2), _ = rng.choice(pool)
     req = {'kind': kind, 'line': l1, 'column': c1, 'new_name': rng.choice(['ex', 'extracted', 'ñew']),
            'until_line': l2, 'until_column': c2}
     k = rng.random()
